@@ -181,6 +181,15 @@ func (w *txWorld) blockOf(i int) (*wtxmgr.BlockMeta, bool) {
 	return bm, present
 }
 
+func indexOf(l []*txInfo, t *txInfo) int {
+	for i, x := range l {
+		if x == t {
+			return i
+		}
+	}
+	return -1
+}
+
 func lockID(n int) wtxmgr.LockID {
 	var id wtxmgr.LockID
 	id[0] = byte(n)
@@ -228,6 +237,29 @@ func (w *txWorld) buildHistory(rng *rand.Rand, n int) {
 		case r < 14:
 			if _, present := w.blockOf(i); present {
 				_ = w.update(func(ns walletdb.ReadWriteBucket) error { return w.store.RemoveUnminedTx(ns, t.rec) })
+			}
+		case r < 15:
+			// lease an output of a recorded transaction that a not yet recorded transaction spends (so that
+			// "confirm a spend of a leased output" is among the reachable situations)
+			done := false
+			for _, sp := range w.txs {
+				if _, present := w.blockOf(indexOf(w.txs, sp)); present {
+					continue
+				}
+				for _, in := range sp.rec.MsgTx.TxIn {
+					op := in.PreviousOutPoint
+					for pi, prev := range w.txs {
+						if prev.rec.Hash == op.Hash && !done {
+							if _, present := w.blockOf(pi); present {
+								_ = w.update(func(ns walletdb.ReadWriteBucket) error {
+									_, err := w.store.LockOutput(ns, lockID(0), op, 10*time.Minute)
+									return err
+								})
+								done = true
+							}
+						}
+					}
+				}
 			}
 		case r < 17:
 			j := rng.Intn(len(t.ours))
@@ -416,6 +448,21 @@ func (w *txWorld) observeStore(s *wtxmgr.Store) []string {
 			out = append(out, fmt.Sprintf("tx%d=h%d credits[%s] debits[%s] label=%q", i, d.Block.Height,
 				strings.Join(cs, ","), strings.Join(ds, ","), d.Label))
 		}
+		// the per-block transaction lists (block records are what Rollback and RangeTransactions walk)
+		var blocks []string
+		err = s.RangeTransactions(ns, 0, -1, func(ds []wtxmgr.TxDetails) (bool, error) {
+			if len(ds) == 0 {
+				return false, nil
+			}
+			var hs []string
+			for _, d := range ds {
+				hs = append(hs, d.Hash.String()[:8])
+			}
+			sort.Strings(hs)
+			blocks = append(blocks, fmt.Sprintf("%d:%s", ds[0].Block.Height, strings.Join(hs, "+")))
+			return false, nil
+		})
+		out = append(out, fmt.Sprintf("range=%s/%v", strings.Join(blocks, " "), err != nil))
 		lo, err := s.ListLockedOutputs(ns)
 		l = nil
 		for _, o := range lo {
